@@ -197,6 +197,18 @@ def c09_a(ctx: Ctx):
                                         "state point file then validates for the job whose state point is that default, and check() accepts it", construct=kx))
                 else:
                     out.append(ctx.ok(R, g, r, f"{g.name}() returns only what json decoded", construct=kx))
+        # ... nor may the reader itself: `json.loads(text) if text else {}` / `json.loads(text) or {}`
+        def _is_default_lit(a):
+            return isinstance(a, (ast.Dict, ast.List, ast.Tuple)) or (isinstance(a, ast.Constant) and a.value is not None and not isinstance(a.value, bool)) \
+                or (isinstance(a, ast.Call) and isinstance(a.func, ast.Name) and a.func.id in ("dict", "list") and not a.args)
+        for n in body_nodes(fi2):
+            if isinstance(n, (ast.IfExp, ast.BoolOp)):
+                parts = [n.body, n.orelse] if isinstance(n, ast.IfExp) else (list(n.values) if isinstance(n.op, ast.Or) else [])
+                dec = [p_ for p_ in parts if any(isinstance(c, ast.Call) and common.ext_name(ctx, fi2, c) in ("json.loads", "json.load") for c in ast.walk(p_))]
+                lit = [p_ for p_ in parts if _is_default_lit(p_)]
+                if dec and lit:
+                    out.append(ctx.viol(R, fi2, n, f"the workspace reader answers {canon(lit[0])} for a state point file it does not decode (`{canon(n)[:60]}`): a truncated / zero-length state "
+                                        "point file then validates for the job whose state point is that default, and check() accepts it", construct=WSREAD + "|no-default-content"))
         for fl in flags:
             d = fi2.default_of(fl)
             v = ctx.fold(d, fi2) if d is not None else UNKNOWN
